@@ -119,18 +119,37 @@ func impliedAtoms(v ssa.Value, pol bool, depth int) []atomFact {
 	if ph, ok := inner.(*ssa.Phi); ok && depth < 4 {
 		// edges compatible with the outcome
 		var cand []ssa.Value
-		for _, e := range ph.Edges {
+		candIdx := -1
+		for i, e := range ph.Edges {
 			if k, isK := boolConst(e); isK {
 				if k == pol {
 					cand = append(cand, e)
+					candIdx = i
 				}
 				continue
 			}
 			cand = append(cand, e)
+			candIdx = i
 		}
 		if len(cand) == 1 {
 			if _, isK := boolConst(cand[0]); !isK {
 				out = append(out, impliedAtoms(cand[0], pol, depth+1)...)
+			}
+			// that edge is the only way the φ can have this outcome: the branch outcomes on the (single-predecessor)
+			// way into it hold as well — `a || b` false means a false (the edge carrying b is entered on !a)
+			if candIdx >= 0 && candIdx < len(ph.Block().Preds) {
+				cur, nxt := ph.Block().Preds[candIdx], ph.Block()
+				for hop := 0; hop < 4; hop++ {
+					if iff := ifOf(cur); iff != nil && len(cur.Succs) == 2 && cur.Succs[0] != cur.Succs[1] {
+						if _, _, isSplit := splitPhi(cur); !isSplit {
+							out = append(out, impliedAtoms(iff.Cond, cur.Succs[0] == nxt, depth+1)...)
+						}
+					}
+					if len(cur.Preds) != 1 {
+						break
+					}
+					nxt, cur = cur, cur.Preds[0]
+				}
 			}
 		}
 	}
